@@ -1,0 +1,24 @@
+//go:build verif
+
+package file
+
+import "github.com/glebziz/fs_db/internal/model"
+
+// VerifMarshal exposes marshalFile with the buffer Set allocates.
+func VerifMarshal(f model.File) ([]byte, error) {
+	data := make([]byte, fileLen(f))
+	err := marshalFile(f, data)
+	if err != nil {
+		return nil, err
+	}
+
+	return data, nil
+}
+
+// VerifUnmarshal exposes unmarshalFile.
+func VerifUnmarshal(data []byte) (model.File, error) {
+	var f model.File
+	err := unmarshalFile(data, &f)
+
+	return f, err
+}
